@@ -1,2 +1,235 @@
-(* Properties/C27.v *)
-From Verif Require Import Model.Portmap Proofs.PortmapProofs.
+(* Properties/C27.v — Portmapper: registry semantics and loopback-only modification.
+   Only statements closed by [exact lemma] and Print Assumptions live here.
+
+   Vocabulary (Model/Portmap.v): [handle_call la reg c data] is Portmapper.handleCall on the call
+   record [data] (bytes) received from caller [c] with registry [reg] and listen address [la]; it
+   returns the new registry and the reply bytes (None = error return, nothing is written).
+   [lookup k reg] is the abstract map (program, version, protocol) -> port.
+   [pm_call data vers proc xid args]: the header of [data] decodes (exactly as handleCall decodes
+   it, credentials and verifier of any flavour and length skipped) to program 100000, the given
+   version, procedure and xid, leaving the argument bytes [args].
+   [reachable la reg]: reg is the registry after ANY finite history, from the empty registry, of
+   call records (arbitrary byte strings, any caller) and Go-API RegisterService /
+   UnregisterService calls with uint32 arguments. *)
+From Coq Require Import List NArith ZArith Bool.
+From Verif Require Import Gen.Facts Model.Portmap Proofs.PortmapProofs.
+Import ListNotations.
+Open Scope N_scope.
+
+(* the constants the property text and RFC 1831/1833 document *)
+Theorem C27_facts :
+  ((c_PortmapperProgram =? 100000) && (c_PMAPPROC_NULL =? 0) && (c_PMAPPROC_SET =? 1) && (c_PMAPPROC_UNSET =? 2)
+   && (c_PMAPPROC_GETPORT =? 3) && (c_PMAPPROC_DUMP =? 4) && (c_IPPROTO_TCP =? 6) && (c_IPPROTO_UDP =? 17)
+   && (c_RPC_CALL =? 0) && (c_RPC_REPLY =? 1) && (c_MSG_ACCEPTED =? 0) && (c_SUCCESS =? 0) && (c_PROG_UNAVAIL =? 1)
+   && (c_PROG_MISMATCH =? 2) && (c_PROC_UNAVAIL =? 3) && (c_GARBAGE_ARGS =? 4) && (c_MAX_RPC_AUTH_LENGTH =? 400))%Z
+  = true.
+Proof. vm_compute. reflexivity. Qed.
+
+(* the version range announced in PROG_MISMATCH replies is exactly the set of versions served *)
+Theorem C27_version_range : forall v, supported v = (VERS_LOW <=? v) && (v <=? VERS_HIGH).
+Proof. exact supported_range. Qed.
+
+(* ------------------------------------------------------------------------------------------ *)
+(* C27_loopback: no call record whatsoever (any bytes: any version, procedure, program, garbage),
+   in any state, from a caller that is not local (an IP address that is not a loopback address,
+   with or without zone, or an address with no recognisable IP) changes the registry. *)
+Theorem C27_loopback : forall la reg c data,
+  local_caller c = false -> fst (handle_call la reg c data) = reg.
+Proof. exact handle_call_nonlocal. Qed.
+
+(* the guard the code evaluates decides exactly "in-process caller or loopback IP address" *)
+Theorem C27_guard_exact : forall c, is_loopback_addr c = local_caller c.
+Proof. exact guard_spec. Qed.
+
+(* what must not change, full strength: whoever calls, a registry change implies a SET / UNSET
+   (procedure 1 or 2) of program 100000 in a served version from a local caller *)
+Theorem C27_only_set_unset_modify : forall la reg c h args,
+  fst (dispatch la reg c h args) <> reg ->
+  h_prog h = PMAP_PROG /\ supported (h_vers h) = true /\ (h_proc h = 1 \/ h_proc h = 2) /\ local_caller c = true.
+Proof. exact dispatch_changes_only_by_set_unset. Qed.
+
+(* ------------------------------------------------------------------------------------------ *)
+(* C27_map: in every reachable state the registry is a map (one port per key, uint32 fields),
+   and every procedure reads or updates exactly that map. *)
+Theorem C27_map_invariant : forall la reg, reachable la reg ->
+  NoDup (keys reg) /\ reg_ok reg = true /\
+  (forall k port, In (k, port) reg <-> lookup k reg = Some port).
+Proof. exact C27_map_invariant_lemma. Qed.
+
+(* GETPORT (v2) answers lookup, 0 when absent; the registry is unchanged; any caller *)
+Theorem C27_map_getport : forall la reg c data xid args p v t x,
+  pm_call data 2 3 xid args -> args4 args = Some (p, v, t, x) ->
+  handle_call la reg c data = (reg, Some (accepted xid (enc32 (port_of (lookup (p, v, t) reg))))).
+Proof. exact map_getport. Qed.
+
+(* GETADDR (v3, v4) answers the universal address of lookup, "" when absent or port 0 *)
+Theorem C27_map_getaddr : forall la reg c data vers xid args p v netid rest, vers = 3 \/ vers = 4 ->
+  pm_call data vers 3 xid args -> rpcb_head args = Some (p, v, netid, rest) ->
+  handle_call la reg c data =
+  (reg, Some (accepted xid (put_string (getaddr_answer la netid (lookup (p, v, prot_getaddr netid) reg))))).
+Proof. exact map_getaddr. Qed.
+
+(* DUMP (v2): the reply body parses, by the RFC 1833 pmaplist grammar and completely, to exactly
+   the entries of the map *)
+Theorem C27_map_dump : forall la reg c data xid args, reachable la reg -> pm_call data 2 4 xid args ->
+  exists body, handle_call la reg c data = (reg, Some (accepted xid body)) /\
+               p_pmaplist (S (length body)) body = Some (reg, []) /\
+               forall k port, In (k, port) reg <-> lookup k reg = Some port.
+Proof. exact C27_map_dump_lemma. Qed.
+
+(* DUMP (v3, v4): the reply body parses by the rpcblist grammar to exactly the entries of the map,
+   each shown as (prog, vers, netid, universal address, "superuser") *)
+Theorem C27_map_rpcb_dump : forall la reg c data vers xid args, la_ok la = true -> reachable la reg ->
+  vers = 3 \/ vers = 4 -> pm_call data vers 4 xid args ->
+  exists body, handle_call la reg c data = (reg, Some (accepted xid body)) /\
+               p_rpcblist (S (length body)) body = Some (map (rpcb_view la) reg, []).
+Proof. exact C27_map_rpcb_dump_lemma. Qed.
+
+(* SET (v2) from a local caller binds the key to the port (overwriting: as coded, not
+   first-registration-wins) and answers TRUE; from any other caller it answers FALSE and changes
+   nothing *)
+Theorem C27_map_set : forall la reg c data xid args p v t port reg' r,
+  pm_call data 2 1 xid args -> args4 args = Some (p, v, t, port) -> handle_call la reg c data = (reg', r) ->
+  if local_caller c
+  then r = Some (accepted xid (enc_bool true)) /\
+       forall k, lookup k reg' = if key_eqb (p, v, t) k then Some port else lookup k reg
+  else r = Some (accepted xid (enc_bool false)) /\ reg' = reg.
+Proof. exact C27_map_set_lemma. Qed.
+
+(* UNSET (v2) from a local caller removes the key (and only it) *)
+Theorem C27_map_unset : forall la reg c data xid args p v t port reg' r, reachable la reg ->
+  pm_call data 2 2 xid args -> args4 args = Some (p, v, t, port) -> handle_call la reg c data = (reg', r) ->
+  if local_caller c
+  then r = Some (accepted xid (enc_bool true)) /\
+       forall k, lookup k reg' = if key_eqb (p, v, t) k then None else lookup k reg
+  else r = Some (accepted xid (enc_bool false)) /\ reg' = reg.
+Proof. exact C27_map_unset_lemma. Qed.
+
+(* SET (v3, v4) from a local caller: the port is parsed from the universal address exactly as
+   fmt.Sscanf("%d.%d.%d.%d.%d.%d") does; port 0 (unparsable, IPv6 or empty address) registers nothing
+   yet answers TRUE; protocol is UDP for netid "udp"/"udp6", TCP for every other netid *)
+Theorem C27_map_rpcb_set : forall la reg c data vers xid args p v netid rest uaddr rest' reg' r,
+  vers = 3 \/ vers = 4 -> pm_call data vers 1 xid args ->
+  rpcb_head args = Some (p, v, netid, rest) -> get_string rest = Some (uaddr, rest') ->
+  handle_call la reg c data = (reg', r) ->
+  if local_caller c
+  then r = Some (accepted xid (enc_bool true)) /\
+       forall k, lookup k reg' = if (0 <? uaddr_port uaddr) && key_eqb (p, v, prot_set netid) k
+                                 then Some (uaddr_port uaddr) else lookup k reg
+  else r = Some (accepted xid (enc_bool false)) /\ reg' = reg.
+Proof. exact C27_map_rpcb_set_lemma. Qed.
+
+Theorem C27_map_rpcb_unset : forall la reg c data vers xid args p v netid rest reg' r, reachable la reg ->
+  vers = 3 \/ vers = 4 -> pm_call data vers 2 xid args -> rpcb_head args = Some (p, v, netid, rest) ->
+  handle_call la reg c data = (reg', r) ->
+  if local_caller c
+  then r = Some (accepted xid (enc_bool true)) /\
+       forall k, lookup k reg' = if key_eqb (p, v, prot_set netid) k then None else lookup k reg
+  else r = Some (accepted xid (enc_bool false)) /\ reg' = reg.
+Proof. exact C27_map_rpcb_unset_lemma. Qed.
+
+(* the Go API is the same map *)
+Theorem C27_map_api : forall la reg p v t port k,
+  lookup k (fst (step la reg (ApiRegister p v t port))) = (if key_eqb (p, v, t) k then Some port else lookup k reg) /\
+  (NoDup (keys reg) ->
+   lookup k (fst (step la reg (ApiUnregister p v t))) = if key_eqb (p, v, t) k then None else lookup k reg).
+Proof. exact C27_map_api_lemma. Qed.
+
+(* the universal address GETADDR / DUMP print for an IPv4 listen address parses back, through the
+   v3/v4 SET parser, to the port it was printed from *)
+Theorem C27_uaddr_roundtrip : forall a b c d port,
+  a < 256 -> b < 256 -> c < 256 -> d < 256 -> port < 4294967296 ->
+  uaddr_port (fmt_uaddr (dotted a b c d) port) = port.
+Proof. exact C27_uaddr_roundtrip_lemma. Qed.
+
+(* ------------------------------------------------------------------------------------------ *)
+(* C27_wellformed: every reply the service produces, for every call record (any bytes), caller and
+   state with uint32 fields, is accepted by the RFC 1831/1833 reply grammar for the call's
+   (program, version, procedure), which consumes all bytes; the XID of the call is echoed. *)
+Theorem C27_wellformed : forall la reg c data reg' r, la_ok la = true -> reg_ok reg = true ->
+  handle_call la reg c data = (reg', Some r) ->
+  exists h args, decode_header data = Some (h, args) /\ wellformed_reply h r = true /\
+                 (bytes_ok data = true -> xid_echoed data r = true).
+Proof. exact handle_call_wellformed. Qed.
+
+(* ... in particular along every history *)
+Theorem C27_wellformed_reachable : forall la reg c data reg' r, la_ok la = true -> reachable la reg ->
+  handle_call la reg c data = (reg', Some r) ->
+  exists h args, decode_header data = Some (h, args) /\ wellformed_reply h r = true.
+Proof. exact C27_wellformed_reachable_lemma. Qed.
+
+(* ------------------------------------------------------------------------------------------ *)
+(* Non-vacuity. *)
+Definition ex_lo : caller := TcpAddr (IP4 127 0 0 1) [] 700.
+Definition ex_zoned : caller := TcpAddr (IP6 18338657682652659712 1) [101; 116; 104; 48] 40000.   (* [fe80::1%eth0]:40000 *)
+Definition ex_hist : list event :=
+  [ ApiRegister 100000 2 6 111;
+    Call ex_lo (enc_call 1 2 100000 2 1 (enc32 100003 ++ enc32 3 ++ enc32 6 ++ enc32 2049));
+    Call ex_lo (enc_call 2 2 100000 4 1 (enc32 100005 ++ enc32 3 ++ put_string s_udp ++
+                                        put_string [49;46;50;46;51;46;52;46;51;46;50;53;53] ++ put_string []));
+    Call ex_zoned (enc_call 3 2 100000 2 2 (enc32 100003 ++ enc32 3 ++ enc32 6 ++ enc32 0)) ].
+
+(* a reachable registry with three entries: the hypotheses of the map theorems are met *)
+Example C27_reachable_nontrivial :
+  reachable [] (run [] [] ex_hist) /\
+  run [] [] ex_hist = [((100000, 2, 6), 111); ((100003, 3, 6), 2049); ((100005, 3, 17), 1023)].
+Proof. split; [exists ex_hist; split; vm_compute; reflexivity|vm_compute; reflexivity]. Qed.
+
+(* a non-local caller exists that sends a well-formed UNSET for a registered key, gets a reply,
+   and the theorem's conclusion is not trivially true: the same record from a local caller removes it *)
+Example C27_loopback_nontrivial :
+  let reg := run [] [] ex_hist in
+  let data := enc_call 9 2 100000 2 2 (enc32 100003 ++ enc32 3 ++ enc32 6 ++ enc32 0) in
+  local_caller ex_zoned = false /\ pm_call data 2 2 9 (enc32 100003 ++ enc32 3 ++ enc32 6 ++ enc32 0) /\
+  lookup (100003, 3, 6) (fst (handle_call [] reg ex_zoned data)) = Some 2049 /\
+  lookup (100003, 3, 6) (fst (handle_call [] reg ex_lo data)) = None /\
+  snd (handle_call [] reg ex_zoned data) = Some (accepted 9 (enc_bool false)).
+Proof.
+  cbv zeta. split; [reflexivity|]. split; [apply pm_call_enc; reflexivity|].
+  split; [vm_compute; reflexivity|]. split; vm_compute; reflexivity.
+Qed.
+
+(* replies of every shape occur and are accepted by the grammar; a truncated or padded variant is not *)
+Example C27_wellformed_nontrivial :
+  let reg := run [] [] ex_hist in
+  let hd vers proc := {| h_xid := 5; h_rpcvers := 2; h_prog := 100000; h_vers := vers; h_proc := proc |} in
+  let reply vers proc args := snd (handle_call [] reg ex_lo (enc_call 5 2 100000 vers proc args)) in
+  (exists r, reply 4 4 [] = Some r /\ wellformed_reply (hd 4 4) r = true /\ (length r > 100)%nat /\
+             wellformed_reply (hd 4 4) (removelast r) = false /\ wellformed_reply (hd 4 4) (r ++ [0]) = false /\
+             wellformed_reply (hd 2 4) r = false) /\
+  (exists r, reply 7 0 [] = Some r /\ wellformed_reply (hd 7 0) r = true /\ wellformed_reply (hd 3 0) r = false) /\
+  (exists r, reply 2 9 [] = Some r /\ wellformed_reply (hd 2 9) r = true) /\
+  handle_call [] reg ex_lo [0; 0; 0; 5; 0; 0; 0; 1] = (reg, None).
+Proof.
+  cbv zeta. split; [|split; [|split]].
+  - eexists. split; [vm_compute; reflexivity|]. vm_compute. repeat split; try reflexivity. repeat constructor.
+  - eexists. split; [vm_compute; reflexivity|]. vm_compute. split; reflexivity.
+  - eexists. split; [vm_compute; reflexivity|]. vm_compute. reflexivity.
+  - vm_compute. reflexivity.
+Qed.
+
+(* a call record with an AUTH_SYS credential (5-byte body, padded) satisfies [pm_call] *)
+Example C27_pm_call_with_credential :
+  pm_call ([0;0;0;7; 0;0;0;0; 0;0;0;2; 0;1;134;160; 0;0;0;2; 0;0;0;3; 0;0;0;1; 0;0;0;5; 1;2;3;4;5;0;0;0;
+            0;0;0;0; 0;0;0;0] ++ enc32 100003 ++ enc32 3 ++ enc32 6 ++ enc32 0)
+          2 3 7 (enc32 100003 ++ enc32 3 ++ enc32 6 ++ enc32 0).
+Proof. eexists. split; [vm_compute; reflexivity|]. cbn. auto. Qed.
+
+Print Assumptions C27_facts.
+Print Assumptions C27_version_range.
+Print Assumptions C27_loopback.
+Print Assumptions C27_guard_exact.
+Print Assumptions C27_only_set_unset_modify.
+Print Assumptions C27_map_invariant.
+Print Assumptions C27_map_getport.
+Print Assumptions C27_map_getaddr.
+Print Assumptions C27_map_dump.
+Print Assumptions C27_map_rpcb_dump.
+Print Assumptions C27_map_set.
+Print Assumptions C27_map_unset.
+Print Assumptions C27_map_rpcb_set.
+Print Assumptions C27_map_rpcb_unset.
+Print Assumptions C27_map_api.
+Print Assumptions C27_uaddr_roundtrip.
+Print Assumptions C27_wellformed.
+Print Assumptions C27_wellformed_reachable.
